@@ -335,6 +335,20 @@ def graph_np(heap: Heap):
             return z3.Or(a == b_, CANCAST(a, b_))
 
         @staticmethod
+        def where(c, a, b_=None, **k):
+            # the one form the graph mechanics use: where(mask, g, 0) -- g where the (boolean) mask holds, 0 elsewhere: a fresh array of the
+            # broadcast shape whose pointwise value is `g if mask else 0`
+            if not (isinstance(c, SRef) and c.cls == "ndarray" and isinstance(a, SRef) and a.cls == "ndarray"):
+                raise Unsupported("np.where outside the form where(mask_array, array, 0)")
+            zb = to_z3(b_)
+            if zb is None or not (z3.is_int_value(z3.simplify(zb)) or z3.is_rational_value(z3.simplify(zb))) or str(z3.simplify(zb)) not in ("0", "0.0"):
+                raise Unsupported("np.where with an alternative other than the numeral 0")
+            cv, csh = h.get("ndarray", "val", c.ref), h.get("ndarray", "shape", c.ref)
+            av, ash = h.get("ndarray", "val", a.ref), h.get("ndarray", "shape", a.ref)
+            shp = z3.If(ash == csh, ash, BSHAPE(ash, csh))
+            return h.new_array(shape=shp, dtype=h.ctx.fresh("res_dtype", "int"), base=0, layout=CLAYOUT(shp), val=z3.If(cv != 0, av, z3.RealVal(0)))
+
+        @staticmethod
         def may_share_memory(a, b_, *x, **k):
             # whether two arrays overlap: certainly when they are the same object, otherwise only possible when they have the same owner; beyond
             # that unknown (an arbitrary boolean) -- enough to see that a decision taken on it leaves the other case open
